@@ -41,11 +41,11 @@ ASSUMPTIONS = [
 ]
 FLOORS = {"quick": {"judged": 4000, "expect_accept": 800,
                     "expect_reject": 1500, "texts_with_import": 1500},
-          "thorough": {"judged": 200000, "expect_accept": 40000,
-                       "expect_reject": 60000, "texts_with_import": 80000}}
+          "thorough": {"judged": 800000, "expect_accept": 400000,
+                       "expect_reject": 250000, "texts_with_import": 400000}}
 HOOK_FLOORS = {"quick": {"addsubtype_during_schema_load": 100},
                "thorough": {"addsubtype_during_schema_load": 5000}}
-N_WORLDS = {"quick": 960, "thorough": 6000}
+N_WORLDS = {"quick": 960, "thorough": 24000}
 SEQS = {"quick": 10, "thorough": 20}
 
 
